@@ -317,3 +317,13 @@ fn test_empty() {
     let (cw, _) = GenericDataEncoder::codewords(&mut enc).unwrap();
     assert_eq!(cw, vec![ascii::PAD, 175, 70]);
 }
+
+/// Verification hook: forward to the planner's forced-path pricing (ASCII start, nothing written).
+#[cfg(feature = "verif_hooks")]
+pub(crate) fn verif_price_path(
+    data: &[u8],
+    symbol_list: &SymbolList,
+    path: &[(usize, EncodationType)],
+) -> Option<usize> {
+    planner::verif_price_path(data, 0, EncodationType::Ascii, symbol_list, path)
+}
